@@ -66,6 +66,14 @@ def run(ctx):
                              label="event.random", oracle=event_oracle)
         core.trace_component(ctx, "event", ["exhaustive", "--seed", ctx.seed + 1, "--cases", 2500 if quick else 60000, "--progs", 5 if quick else 16,
                                             "--preempt", 2 if quick else 3], label="event.exhaustive", oracle=event_oracle)
+        # the real trigger back-ends (unix datagram socket, socket pair, semaphore) x both event states, sequentially:
+        # the step-level model run to completion per call must answer like the real Event concepts
+        okh, err = core.build_harness(ctx)
+        if okh:
+            core.diff_component(ctx, "eventseq", ["gen", "--seed", ctx.seed, "--cases", 3000 if quick else 40000, "--len", 12 if quick else 24],
+                                lambda case, idx, io, mo: "eventseq:" + case[0][0].split(" ")[1] + ":" + case[idx][0].split(" ")[0], label="eventseq")
+        else:
+            ctx.violation("harness-build", "harness does not build against the current tree", dict(engine="cargo", stderr=err[-3000:]), nfi=True)
     return core.finish(
         ctx, level="proof",
         rule="steptrace on the real EventImpl hand-shake (cal/event/common.rs: Notifier::notify, Waiter::drain_events through try_wait and blocking_wait) over the real "
@@ -73,7 +81,8 @@ def run(ctx):
              "one listener with 1..2 try/blocking waits, ids from 1, 3 or 9, trigger bound 0/1/2 with and without fail_when_buffer_is_full; PRNG schedules and all schedules "
              "with a bounded number of preemptions; every atomic operation and returned value compared with the L2 model; a blocked listener is unschedulable until the "
              "trigger counter is positive, a listener blocked for good is reported by the scheduler and must be disabled in the model too. distinct = distinct (program, interleaving)",
-        extra_assumptions=["the real trigger back-ends (semaphore, unix datagram socket, socket pair) are represented by the counter `notify adds one signal or reports BufferIsFull, "
-                           "wait consumes, empty_buffer discards all`; their own code is not traced",
+        extra_assumptions=["in the traces the real trigger back-ends (semaphore, unix datagram socket, socket pair) are represented by the counter `notify adds one signal or reports BufferIsFull, "
+                           "wait consumes, empty_buffer discards all`; the six real back-end x event-state combinations are compared with the same model sequentially (component eventseq: notify / try_wait), "
+                           "not under concurrency",
                            "sequentially consistent interleavings only (all hand-shake operations are SeqCst in the source; the bit-set operations are Relaxed RMWs on single words)",
                            "timed_wait is try_wait after the timeout elapsed; time itself is not modelled"])
